@@ -197,7 +197,8 @@ def hier_entry(h, mod, prefix):
     if fl == "config-codec":
         dec = mod.BasicDecoder(base).decode
         return (lambda d, wd=False: dec(d)), False
-    ann = typing.Annotated[base, mod.Discriminator(field=h["field"], include_subtypes=True)]
+    ann = typing.Annotated[base, mod.Discriminator(field=h["field"], include_subtypes=True,
+                                                   **({"variant_tagger_fn": mod.c05_tagger} if h.get("tagger") else {}))]
     if fl == "annotated-codec":
         dec = mod.BasicDecoder(ann).decode
         return (lambda d, wd=False: dec(d)), False
@@ -265,7 +266,7 @@ def hier_section(ctx, rng, n_hier: int):
         if h["flavour"] in ("config-msgpack", "config-orjson"):
             inputs = [fmt_safe(d) for d in inputs]
         walk = G.hier_walk(h)
-        ctx.hist("hier_flavour", h["flavour"])
+        ctx.hist("hier_flavour", h["flavour"] + ("+tagger" if h.get("tagger") else ""))
         vterms_tables = {i: [] for i in walk}
         observed = []
         schema = {"cls": f"H{h['idx']}", "source": src_real, "hier": h, "fields": [], "mixin": True, "forbid": False,
@@ -300,7 +301,7 @@ def hier_section(ctx, rng, n_hier: int):
                 tag = d[h["field"]]
                 owner = None
                 for i in walk:
-                    if type(tag) is str and h["classes"][i]["tag"] == tag:
+                    if type(tag) is str and tag in G.tags_of(h, i):
                         owner = i
                 if owner is None:
                     exp_txt = "SuitableVariantNotFoundError"
@@ -347,9 +348,11 @@ def hier_section(ctx, rng, n_hier: int):
                 vterms_tables[i].append((G.enc(d), _rename(outcome_term(tr, texc, key_order), h)))
         vterms = []
         for i in walk:
-            c = h["classes"][i]
-            tagt = f"(Some {coq_str(c['tag'])})" if c["tag"] is not None else "None"
-            vterms.append(f"({tagt}, table_fun {table_term(vterms_tables[i])})")
+            tags = G.tags_of(h, i)
+            for tg in tags:      # a tagger returning a list registers the variant under every element, in order
+                vterms.append(f"(Some {coq_str(tg)}, table_fun {table_term(vterms_tables[i])})")
+            if not tags:
+                vterms.append(f"(None, table_fun {table_term(vterms_tables[i])})")
         cases.append(f"({coq_str(h['field'])}, {coq_list(vterms)}, {coq_list([G.enc(d) for d in inputs])}, {coq_list(observed)})")
         labels.append(f"H{k} {h['flavour']} history {inputs!r}"[:200])
         if k < 2:
